@@ -95,6 +95,12 @@ static std::string do_useq(const std::string& ops) {
         else if (k == "sbs") u.setBufferSize(strtoll(a[1].c_str(), nullptr, 10));
         else if (k == "sdlcs") u.setDefaultLogContainerSize(uint32_t(strtoul(a[1].c_str(), nullptr, 10)));
         else if (k == "abort") u.abort();
+        else if (k == "held") {   // the containers held (private member, read with -fno-access-control): position:declared size:vector size
+            std::ostringstream o; o << "u held n=" << u.m_data.size() << " c=";
+            bool first = true;
+            for (auto& lc : u.m_data) { if (!first) o << ","; first = false;
+                if (lc) o << (long long)lc->filePosition << ":" << lc->uncompressedFileSize << ":" << lc->uncompressedFile.size(); else o << "null"; }
+            out += (out.empty() ? "" : " | ") + o.str(); continue; }
         else { out += (out.empty() ? "" : " | ") + std::string("bad-request"); continue; }
         out += (out.empty() ? "" : " | ") + r + uobs(u);
     }
